@@ -40,6 +40,14 @@ NEEDS = {
  "C16-d": ("C16", "rs_galois_init_tables no longer counts the second and later users: two live rs_vand instances, destroy one -> shared tables freed under the survivor"),
  "C19-d": ("C19", "isa_l_decode early 'only parity missing' exit with the data mask short by one: the last data fragment (k-1) missing alone is not rebuilt"),
  "C20-d": ("C20", "forced checks skip a fragment whose index already appeared earlier in the INPUT list: an invalid copy followed by a valid copy of the same index loses the valid one"),
+ "C01-e": ("C01", "flat_xor_hd hd=4, three data fragments erased none of which is singly connected: decode_three_data frees its P^Q scratch buffer before copying it (small payloads: the allocator overwrites the first bytes)"),
+ "C05-e": ("C05", "INTEL_SSE2 build only: trailing 64-bit word XORed in one go, then fast_blocksize advanced by the whole residual: blocksize % 16 in 9..15 loses its last bytes"),
+ "C09-e": ("C09", "stored metadata checksum accepted in either byte order regardless of the order the magic indicates"),
+ "C11-e": ("C11", "open-coded bswap_64 with one wrong shift: opposite-endian orig_data_size >= 2^32 read wrongly"),
+ "C13-e": ("C13", "encode_cleanup guards the parity block with the data pointer: (desc, data, NULL) dereferences NULL, (desc, NULL, parity) frees nothing"),
+ "C14-e": ("C14", "flat_xor_hd_init hands every instance the same static descriptor: two flat-XOR instances with different shapes, or one destroyed while the other is used"),
+ "C15-e": ("C15", "metadata-CRC flavour decision cached in a function-local static: the first header written in the process fixes it for all later calls, whatever the environment says then"),
+ "C18-e": ("C18", "unregister takes the registry lock in READ mode: two threads destroying different instances run SLIST_REMOVE concurrently"),
  "C20-a": ("C20", "force_metadata_checks with erasures AND corruption together: 'valid < k' replaced by 'invalid > m'"),
 }
 def main():
